@@ -22,7 +22,8 @@ def run(ctx):
     # Tier B: Vyukov.tla (enqueue_with / dequeue_with as coded, ghost abstract queue; the textbook variant must fail)
     vlib.model_check_many(ctx, [dict(module_rel="queue/VyukovMC.tla", cfg_rel="queue/Vyukov_q.cfg" if ctx.quick() else "queue/Vyukov_t.cfg", workers=8, timeout=3000),
                                 dict(module_rel="queue/VyukovMC.tla", cfg_rel="queue/Vyukov_q2.cfg", workers=4),
-                                dict(module_rel="queue/VyukovMC.tla", cfg_rel="queue/Vyukov_bad_textbook.cfg", workers=2, expect_violation="LinOK")], par=3)
+                                dict(module_rel="queue/VyukovMC.tla", cfg_rel="queue/Vyukov_bad_textbook.cfg", workers=2, expect_violation="LinOK"),
+                                dict(module_rel="queue/VyukovMC.tla", cfg_rel="queue/Vyukov_bad_stalecell.cfg", workers=2, expect_violation="LinOK")], par=3)
     q = ctx.quick()
     progs = PROGRAMS + [gen_program(ctx.rng) for _ in range(2 if q else 10)]
     deep = [("dfs", 5000 if q else 400000, 3)]
